@@ -5,13 +5,16 @@
 // shared helpers), c11_publish.go (entity publication order = second half of R-C11-2,
 // R-C11-4, R-C11-5, pipeline immutability), c11_inherit.go (R-C11-3, SSA taint analysis).
 //
-// Expected on today's tree: everything discharged except ONE genuine defect,
+// Expected on today's tree: everything discharged. History: the first run found one
+// genuine defect,
 //
 //	R-C11-3|pkg/filters/ratelimiter.(RateLimiter).Inherit|predecessor field URLRule.rl
 //
-// (RateLimiter.reload sets prev.rl = nil on the previous generation's URLRule, the old
-// generation's Handle then calls u.rl.AcquirePermission() on nil; demonstrated by
-// zz_triage_ratelimiter_test.go, fixed by deleting the line, see fix-1.diff).
+// (RateLimiter.reload set prev.rl = nil on the previous generation's URLRule, the old
+// generation's Handle then called u.rl.AcquirePermission() on nil); repaired in /repo by
+// 6641586 (the limiter is shared, not moved). R-C11-6 (fresh route cache per generation)
+// reuses the C12 cache-freshness check (muxCacheFresh); self-test mutants incl. one for
+// R-C11-6 are in selftest/mutants/C11.json.
 //
 // Mutants tried in a scratch worktree (each compiles) -> rule that fired:
 //
